@@ -26,6 +26,7 @@ func checkC06(c *Ctx, r *Report) {
 	c06GenerateRange(c, r)
 	c06IncludeFile(c, r)
 	c06GenerateEscape(c, r)
+	generateOffsetLocal(c, r, "C06.R5.generate-offset-local")
 	c06LexerRecordEnd(c, r)
 	c06TTLDirectiveFlag(c, r, "C06.R3.ttl-directive-flag")
 	ttlNoWrap(c, r, "C06.R3.ttl-no-wrap")
